@@ -126,6 +126,62 @@ theorem min_of_parts (a b : List Int) (x y : Int) (ha : minOf a = some x) (hb : 
           rw [this, ih]
       rw [key, hb]
 
+/-- the greatest value of a list -/
+def maxOf : List Int → Option Int
+  | [] => none
+  | x :: xs => some (xs.foldl max x)
+
+/-- **the maximum over a split is the maximum of the parts' maxima** -/
+theorem max_of_parts (a b : List Int) (x y : Int) (ha : maxOf a = some x) (hb : maxOf b = some y) :
+    maxOf (a ++ b) = some (max x y) := by
+  cases a with
+  | nil => simp [maxOf] at ha
+  | cons a0 as =>
+    cases b with
+    | nil => simp [maxOf] at hb
+    | cons b0 bs =>
+      simp only [maxOf, Option.some.injEq] at ha hb
+      simp only [List.cons_append, maxOf, List.foldl_append, List.foldl_cons, Option.some.injEq]
+      rw [ha]
+      have key : ∀ (l : List Int) (u w : Int), l.foldl max (max u w) = max u (l.foldl max w) := by
+        intro l
+        induction l with
+        | nil => intro u w; rfl
+        | cons z zs ih =>
+          intro u w
+          rw [List.foldl_cons, List.foldl_cons]
+          have : max (max u w) z = max u (max w z) := by omega
+          rw [this, ih]
+      rw [key, hb]
+
+/-- **the mean over any split is the ratio of the summed partial sums and counts** — what a
+merge of partial aggregates has to carry (sum *and* count per part) -/
+theorem mean_of_parts (a b : List Pt) (h : a ++ b ≠ []) :
+    apply .mean (a ++ b) = some (none, .ratio (sumOf a + sumOf b) ((countOf a + countOf b).toNat)) := by
+  have hc := (count_sum_additive a b).1
+  have hs := (count_sum_additive a b).2
+  unfold apply
+  cases hl : a ++ b with
+  | nil => exact absurd hl h
+  | cons p ps =>
+    simp only [List.isEmpty_cons, Bool.false_eq_true, if_false]
+    rw [← hl]
+    unfold sumOf at hs
+    unfold countOf at hc
+    rw [hs]
+    congr 3
+
+/-- **a mean of the parts' means is not the mean** (the pinned merge carries the counts; a
+merge that forgets them — seeded change c11-m1 — is wrong whenever the parts differ in size):
+parts {10, 20, 30} and {100} have means 20 and 100, whose mean is 60; the mean of the union
+is 40. Stated without division: (s₁/c₁ + s₂/c₂)/2 = (s₁+s₂)/(c₁+c₂) fails after clearing
+denominators. -/
+theorem mean_of_means_differs :
+    ∃ a b : List Pt, a ≠ [] ∧ b ≠ [] ∧
+      (sumOf a * countOf b + sumOf b * countOf a) * (countOf a + countOf b)
+        ≠ 2 * (countOf a * countOf b) * (sumOf a + sumOf b) :=
+  ⟨[⟨"", 1, 10⟩, ⟨"", 2, 20⟩, ⟨"", 3, 30⟩], [⟨"", 4, 100⟩], by simp, by simp, by decide⟩
+
 /-! ### fill -/
 
 theorem fillRows_none (rows : List (Int × Option Cell)) :
